@@ -80,6 +80,22 @@ func gen(tier string) []proto.Item {
 								}
 							}
 						}
+						if vi.Relaxed && simnet.IsICMPError(form) {
+							// relaxed variants exist for paths where a NAT does not translate the quoted datagram back: the same error
+							// with a quoted source (address, port) that is not the local one is still this run's reply, and whether it
+							// marks the destination depends on who sent it exactly as before
+							for _, f := range []string{"q.src", "q.sport"} {
+								s6 := base(v, r.first, r.last, dest)
+								s6.Hops = map[int]proto.HopSpec{pos.ttl: {Form: form, From: resp.addr, AtTarget: resp.name == "target", Rewrite: []simnet.Perturb{{Field: f, Op: "+1"}}}}
+								if resp.name == "target" {
+									// (every later probe is answered the same way: no other kind of reply can mark the hop afterwards)
+									for t := pos.ttl + 1; t <= r.last; t++ {
+										s6.Hops[t] = s6.Hops[pos.ttl]
+									}
+								}
+								items = append(items, proto.Item{Scn: s6, Class: fmt.Sprintf("%s/%s/%s/%s/from-%s/quoted-%s-rewritten/alone", v, rtag, pos.name, form, resp.name, f)})
+							}
+						}
 						if resp.name == "foreign-host" && simnet.IsICMPError(form) {
 							// the foreign host's error quotes a datagram addressed to ITSELF (it is the nearer target of some other
 							// traceroute from this host, same ports / identifiers): it says nothing about our target
